@@ -1,4 +1,5 @@
 import WmModel.Props.C05Reg
+import WmModel.Props.C04Exit
 import WmModel.Props.C04
 import WmModel.Props.C11
 #print axioms Wm.GcSub.redelivery_only_after_nack
@@ -9,3 +10,6 @@ import WmModel.Props.C11
 #print axioms Wm.GcSub.one_unsettled_inv
 #print axioms Wm.GcTopic.mid_publish
 #print axioms Wm.GcReg.send_starts_one_sender_per_registered
+#print axioms Wm.GcSub.acked_exit_means_delivered_and_acked
+#print axioms Wm.GcSub.unacked_exit_means_closing
+#print axioms Wm.GcSub.sender_exits_once
